@@ -382,7 +382,10 @@ func lockModel(d int) Intrinsic {
 		}
 		e.locks[p] += d
 		if d > 0 && e.locks[p] > 1 && !strings.Contains(fn.Name(), "RLock") {
-			e.unsupported("mutex already held: would deadlock in a sequential harness at %s", e.where())
+			// the only thread of a sequential harness locks a mutex it already
+			// holds: it blocks for good. Reported like non-termination: a
+			// violation if (and only if) the native run does not terminate either.
+			e.abort("budget", "self-deadlock: mutex already held at %s", e.where())
 		}
 		if e.locks[p] < 0 {
 			panic(targetPanic{Iface{T: e.M.runtimeErrT, V: litString("sync: unlock of unlocked mutex")}})
